@@ -550,7 +550,39 @@ func (ef *Effects) direct(fn *ssa.Function) {
 // module). For interface invokes nothing is resolved here.
 func (ef *Effects) dynamicTargets(cc *ssa.CallCommon) []*ssa.Function {
 	if cc.IsInvoke() {
-		return nil
+		// class-hierarchy resolution restricted to the module: every module type implementing the interface
+		iface, ok := cc.Value.Type().Underlying().(*types.Interface)
+		if !ok {
+			return nil
+		}
+		var out []*ssa.Function
+		seen := map[*ssa.Function]bool{}
+		for path, sp := range ef.f.Prog.SSAPkg {
+			if !load.IsModule(path) {
+				continue
+			}
+			for _, m := range sp.Members {
+				t, ok := m.(*ssa.Type)
+				if !ok {
+					continue
+				}
+				for _, T := range []types.Type{t.Type(), types.NewPointer(t.Type())} {
+					if !types.Implements(T, iface) {
+						continue
+					}
+					sel := ef.f.Prog.SSA.MethodSets.MethodSet(T).Lookup(cc.Method.Pkg(), cc.Method.Name())
+					if sel == nil {
+						continue
+					}
+					fn := ef.f.Prog.SSA.MethodValue(sel)
+					if fn != nil && ef.Funcs[fn] != nil && !seen[fn] {
+						seen[fn] = true
+						out = append(out, fn)
+					}
+				}
+			}
+		}
+		return out
 	}
 	sig, ok := cc.Value.Type().Underlying().(*types.Signature)
 	if !ok {
@@ -653,7 +685,7 @@ func (ef *Effects) propagate(fn *ssa.Function) bool {
 				}
 			}
 		case cs.Dynamic:
-			if cs.Instr.Common().IsInvoke() {
+			if cs.Instr.Common().IsInvoke() && len(cs.Targets) == 0 {
 				m := cs.Instr.Common().Method
 				name := m.FullName()
 				if eff, ok := ExternInvokes[name]; ok {
